@@ -404,6 +404,12 @@ class Gen:
             return False
         r = self.r
         wl = r.sample(range(a["n"]), r.randint(1, a["n"]))
+        if self.cfg["arm"] == "natural-faults" and len(wl) >= 2 and r.random() < 0.3:
+            # F1: a qubit named twice -- the library refuses it part-way through qft (duplicate qubit in a gate); the
+            # target is whatever it is then (re-synchronised), everybody else and every LATER qft / iqft must be fine
+            wl[-1] = wl[0]
+            self.add("qft_iqft", {"target": a["id"], "wl": wl, "by_name": False, "as_tuple": r.random() < 0.2, "fault": "dup"}, [a["id"]])
+            return True
         self.add("qft_iqft", {"target": a["id"], "wl": wl, "by_name": r.random() < 0.25, "as_tuple": r.random() < 0.2}, [a["id"]])
         return True
 
